@@ -275,7 +275,7 @@ impl Part for LayoutPart {
             .boxed()
     }
     fn cases(&self, tier: Tier) -> u64 {
-        tier.pick(150_000, 3_000_000)
+        tier.pick(600_000, 3_000_000)
     }
     fn exec(&self, c: &Layout, out: &mut CaseOut) -> Result<(), Fail> {
         exec_layout(c, out)
